@@ -136,7 +136,15 @@ class Explorer:
                         env[x.id] is not None:
                     return env[x.id]
                 if unparse(x) == 'text[pos]':
-                    return env.get('__la__')
+                    # the character under the cursor: the look-ahead after
+                    # the read was consumed, the character itself after it
+                    # was put back
+                    off = env.get('__off__', 1)
+                    if off == 1:
+                        return env.get('__la__')
+                    if off == 0:
+                        return env.get('char')
+                    return None
                 if isinstance(x, ast.Name) and x.id in self.consts:
                     return self.consts[x.id]
                 return None
@@ -168,6 +176,13 @@ class Explorer:
                 k = (lt, type(op))
                 if k in more:
                     return ('fork', 'pos < size', more[k])
+            if {lt, rt} == {'cur_expr', 'None'} and env.get(
+                    '__cur__') is not None and isinstance(
+                        op, (ast.Is, ast.IsNot, ast.Eq, ast.NotEq)):
+                # the open list was just set on this path
+                isnone = env['__cur__'] == 'none'
+                return isnone if isinstance(op, (ast.Is, ast.Eq)) \
+                    else not isnone
             if any(k in txt for k in ('pos', 'size', 'cur_expr', 'exprs')) \
                     and 'char' not in txt:
                 if isinstance(op, (ast.IsNot, ast.NotEq)):
@@ -210,7 +225,8 @@ class Explorer:
         """All paths from read point ``start`` (having just read ``char``)
         to the next read point / return.  Returns list of dicts."""
         out = []
-        env0 = {'char': char, 'first_char': first_char, '__la__': la}
+        env0 = {'char': char, 'first_char': first_char, '__la__': la,
+                '__off__': 0}
 
         def step(n, env, events, decisions, seen):
             # n: node to execute next
@@ -238,7 +254,11 @@ class Explorer:
                         label = v[1]
                         neg = v[2] if len(v) > 2 else False
                         known = None
-                        if 'pos' in label:
+                        if label == 'pos < size' and env.get(
+                                '__off__', 1) <= 0:
+                            # the cursor is on the character just read
+                            known = True
+                        elif 'pos' in label:
                             # same EOF question while the cursor did not
                             # move has the same answer
                             for k in range(len(events) - 1, -1, -1):
@@ -278,6 +298,10 @@ class Explorer:
                     else:
                         t = unparse(a)
                         events = events + [t]
+                        if t.replace(' ', '') in ('pos+=1', 'pos-=1'):
+                            env = dict(env)
+                            env['__off__'] = env.get('__off__', 0) + (
+                                1 if '+' in t else -1)
                         if isinstance(a, ast.Assign) and isinstance(
                                 a.targets[0], ast.Name):
                             nm = a.targets[0].id
@@ -285,6 +309,18 @@ class Explorer:
                                     a.value) == 'char':
                                 env = dict(env)
                                 env['first_char'] = env['char']
+                            elif nm == 'cur_expr':
+                                env = dict(env)
+                                v_ = a.value
+                                if isinstance(v_, ast.Constant) and \
+                                        v_.value is None:
+                                    env['__cur__'] = 'none'
+                                elif isinstance(v_, ast.List) or unparse(
+                                        v_) in ('exprs[-1]', 'exprs.pop()'):
+                                    # elements of the stack are lists
+                                    env['__cur__'] = 'list'
+                                else:
+                                    env['__cur__'] = None
                             elif nm == 'char':
                                 raise AnalysisError(
                                     'parse_smtlib: char assigned from '
@@ -601,9 +637,8 @@ def rule_r2(chk, m, f, cfg, top, states, table):
         for p in paths:
             ev = p['events']
             emits = [e for e in ev
-                     if ('cur_expr.append(' in e and 'Node' in e)
+                     if e.startswith('cur_expr.append(')
                      or e.startswith('yield ')
-                     or e.startswith('cur_expr.append(token')
                      or e.startswith('exprs[-1].append(')]
             if not emits:
                 continue
